@@ -245,3 +245,71 @@ def order_dependence(desc, seed, p, N, keys, forward_values, **build_kw):
             out[k] = (float(np.abs(v - f).max()) / sc
                       if v.shape == f.shape else float('inf'))
     return out
+
+
+# ---- differential oracles judged by the property, not by bit-equality ----
+# order / style / attribute variants are first compared tightly with the
+# forward values (cheap; all equal on a tree where nothing depends on them).
+# A difference above the tight tolerance is not yet a violation: aurel picks
+# between formulas that agree only up to the discretisation error according
+# to what happens to be cached, and a legitimate change of the code may move
+# that choice.  The variant is then replayed at both resolutions and its
+# error against the analytic reference is judged exactly like the forward
+# error (`judge` of the calling check).
+ALT_KINDS = {'order': dict(),
+             'style': dict(components=True),
+             'lamattr': dict(lambda_attr=True)}
+
+
+def alt_values(kind, desc, seed, p, N, keys, **build_kw):
+    """Values of `keys` on a fresh instance of the given variant, requested
+    in the order the tight comparison used (reverse, forward for lamattr)."""
+    rel, st, XYZ, inp = build_core(desc, seed, p, N, **ALT_KINDS[kind],
+                                   **build_kw)
+    seq = list(keys) if kind == 'lamattr' else list(reversed(list(keys)))
+    out = {}
+    with quiet():
+        for k in seq:
+            out[k] = np.array(rel[k], copy=True)
+    return out
+
+
+def alt_errors(res, desc, seed, p, Ns, keys, ref_scale, tol=None,
+               **build_kw):
+    """For every variant in res[kind] with a difference above its tight
+    tolerance: errors of the variant's values against the reference at both
+    resolutions, res['alt_err'][kind][key] = [e_lo, e_hi].
+    ref_scale(N) -> {key: (reference array, scale)} exactly as used for the
+    forward error; only called when a variant differs."""
+    tol = tol or {}
+    store = {}
+    for kind in ALT_KINDS:
+        limit = tol.get(kind, 1e-12 if kind == 'lamattr' else 1e-9)
+        bad = [k for k, d in res.get(kind, {}).items() if not d <= limit]
+        if not bad:
+            continue
+        errs = {k: [] for k in bad}
+        for N in Ns:
+            if N not in store:
+                store[N] = ref_scale(N)
+            vals = alt_values(kind, desc, seed, p, N, keys, **build_kw)
+            for k in bad:
+                if k not in store[N]:
+                    errs[k].append(float('inf'))
+                    continue
+                refk, sc = store[N][k]
+                if refk is None:        # the reference is zero
+                    refk = np.zeros_like(vals[k])
+                errs[k].append(err(vals[k], refk, sc))
+        res.setdefault('alt_err', {})[kind] = errs
+    return res
+
+
+def alt_verdict(res, kind, key, judge_err):
+    """(ok, why) for a variant difference above the tight tolerance: the
+    variant's own errors against the reference, judged like forward ones."""
+    ae = res.get('alt_err', {}).get(kind, {}).get(key)
+    if not ae or len(ae) < 2:
+        return False, "no reference comparison available"
+    ok, why = judge_err(key, ae[0], ae[1])
+    return ok, f"variant errors {ae[0]:.2e},{ae[1]:.2e}: {why}"
